@@ -77,6 +77,7 @@ func VerifC15_DecHeader() {
 		vrt.Reach("accepted")
 		vrt.Assert(len(rest)+16+12*len(h.archiveInfoList) == n, "C15.dec Header consumes exactly its encoding")
 		vrt.Assert(int(h.archiveCount) == len(h.archiveInfoList), "C15.dec Header count matches list")
+		vrt.Assert(h.aggregationMethod >= 1 && h.aggregationMethod <= 6, "C15.dec an accepted header has a storable aggregation method (a well-formed object)")
 	} else {
 		var werr *WantLargerBufferError
 		if vrtAsWant(err, &werr) {
@@ -99,6 +100,8 @@ func VerifC15_Open() {
 	if err == nil {
 		vrt.Reach("opened")
 		vrt.Assert(int(w.Header().archiveCount) == len(w.Header().archiveInfoList), "C15.open header consistent")
+		am := w.Header().aggregationMethod
+		vrt.Assert(am >= 1 && am <= 6, "C15.open an accepted file has a storable aggregation method (a well-formed object)")
 		_ = w.Close()
 	}
 	vrt.Assert(vrt.AllocBytes() <= int64(4096+2*n+4096), "C15.open allocation proportional to the file")
